@@ -26,6 +26,7 @@ def check(run, tier):
         run.mc("MC_Twin", "MC_Twin_mixed_d4", timeout=3000)
     r = rng("C02")
     progs = targeted.limit_programs("evo") + targeted.limit_programs("fluent")
+    progs += targeted.round2_programs("evo") + targeted.round2_programs("fluent")
     n = 150 if q else 3000
     units = [Fraction(1), Fraction(1, 2**40), Fraction(2**10), Fraction(1, 4)]
     for i in range(n):
